@@ -508,6 +508,22 @@ def m_auth(hist, rec):
         report(hist, "C08", "hook_auth", {"variant": var}, "rewards accepted from %s" % c["sender"], rec)
     if ok and var == "receive_unstaked_tokens" and c["sender"] != su.hook_staker(pc["ibc_channel_id"], nc["staker_address"]):
         report(hist, "C08", "hook_auth", {"variant": var}, "unstaked tokens accepted from %s" % c["sender"], rec)
+    # C09: the accepted cross-chain sender is exactly the ibc-hooks account derived (independent Python
+    # implementation: hashlib + reference bech32) from the channel, native address and protocol prefix the
+    # contract is configured with at the time of the call
+    for v_, role in (("receive_rewards", "reward_collector_address"), ("receive_unstaked_tokens", "staker_address")):
+        if ok and var == v_:
+            want = bech32.hook_account(pc["ibc_channel_id"], nc[role], pc["account_address_prefix"])
+            if c["sender"] != want:
+                report(hist, "C09", "hook_derivation", {"variant": var},
+                       "%s accepted from %s; the configuration (%s, %s, prefix %s) derives %s" % (
+                           var, c["sender"], pc["ibc_channel_id"], nc[role], pc["account_address_prefix"], want), rec)
+    # ... and the account the configuration derives is not turned away as unauthorized
+    if var in ("receive_rewards", "receive_unstaked_tokens") and c["outcome"] == "err" and c["kind"] == "Unauthorized":
+        role = "reward_collector_address" if var == "receive_rewards" else "staker_address"
+        if c["sender"] == bech32.hook_account(pc["ibc_channel_id"], nc[role], pc["account_address_prefix"]):
+            report(hist, "C09", "hook_derivation", {"variant": var, "refused": True},
+                   "%s from the ibc-hooks account of the configured channel and address was refused as unauthorized" % var, rec)
     # C10
     if cfg(b)["stopped"] and var in HALTED_VARIANTS and c["outcome"] != "err":
         report(hist, "C10", "halted_blocks", {"variant": var, "outcome": c["outcome"]}, "%s did not fail while halted" % var, rec)
